@@ -585,11 +585,15 @@ type recLogger struct {
 	}
 	clock   *rigClock
 	onError func(k int)
+	slowErr time.Duration // the error sink (stderr) is slow
 	mu      sync.Mutex
 	errs    []error
 }
 
 func (l *recLogger) Error(err error) {
+	if l.slowErr > 0 {
+		time.Sleep(l.slowErr)
+	}
 	l.mu.Lock()
 	l.errs = append(l.errs, err)
 	k := len(l.errs)
